@@ -385,6 +385,52 @@ def _split_info(t: Term, owner: Term) -> Tuple[Optional[str], List[str]]:
     return None, [f'cannot interpret {str(t)[:100]}']
 
 
+def _through_generators(ev: Evaluator, outs: List[Outcome]) -> List[Outcome]:
+    """`return list(gen(args))` with gen a generator function of the package whose paths either yield single values or
+    run one loop `for x in xs: yield e`: the list it produces, per path of the generator"""
+    from .terms import _split_product
+    res: List[Outcome] = []
+    for o in outs:
+        v = o.value
+        inner = v.args[0] if o.kind == 'return' and isinstance(v, Call) and isinstance(v.func, Ext) and v.func.name in ('list', 'tuple') and len(v.args) == 1 else None
+        g = ev.callee(inner.func) if isinstance(inner, Call) and isinstance(inner.func, FuncRef) and not inner.kwargs else None
+        if g is None or not any(isinstance(x, (ast.Yield, ast.YieldFrom)) for x in ast.walk(g.node)):
+            res.append(o)
+            continue
+        params = g.params()
+        ok = len(params) == len(inner.args)
+        new_outs: List[Outcome] = []
+        if ok:
+            for go in ev.run(g, dict(zip(params, inner.args))):
+                if go.kind == 'raise':
+                    new_outs.append(Outcome('raise', go.value, o.guards + go.guards, o.effects + go.effects, o.asserts + go.asserts, go.lineno))
+                    continue
+                ys = [e for e in go.effects if isinstance(e, Op) and e.op == 'yield']
+                lps = [e for e in go.effects if isinstance(e, Loop) and any(isinstance(x, Op) and x.op == 'yield' for pth in e.paths for x in pth[3])]
+                if ys and not lps:
+                    val: Term = TupleT(tuple(y.args[0] for y in ys), 'list')
+                elif len(lps) == 1 and not ys and len(lps[0].paths) == 1 and not lps[0].paths[0][0] and lps[0].target != '<while>':
+                    lp = lps[0]
+                    ysl = [x for x in lp.paths[0][3] if isinstance(x, Op) and x.op == 'yield']
+                    if len(ysl) != 1:
+                        ok = False
+                        break
+                    gens = _split_product([(lp.target, lp.iter, ())])
+                    val = Comp('list', ysl[0].args[0], tuple(gens))
+                elif not ys and not lps:
+                    val = TupleT((), 'list')
+                else:
+                    ok = False
+                    break
+                rest = tuple(e for e in go.effects if not (isinstance(e, Op) and e.op == 'yield') and e not in lps)
+                new_outs.append(Outcome('return', val, o.guards + go.guards, o.effects + rest, o.asserts + go.asserts, go.lineno))
+        if ok and new_outs:
+            res.extend(new_outs)
+        else:
+            res.append(o)
+    return res
+
+
 def canonical_cells(ctx: Ctx) -> Dict[Tuple[str, str], Dict]:
     """(pattern type, scope type) -> extracted decomposition facts"""
     def build():
@@ -400,13 +446,13 @@ def canonical_cells(ctx: Ctx) -> Dict[Tuple[str, str], Dict]:
                 return not any(isinstance(n, (ast.While, ast.Try, ast.With)) for n in ast.walk(f.node))
             if f.module.name != 'hpl.rewrite' or depth > 4:
                 return False
-            return not any(isinstance(n, (ast.While, ast.Try, ast.With)) for n in ast.walk(f.node))
+            return not any(isinstance(n, (ast.While, ast.Try, ast.With, ast.Yield, ast.YieldFrom)) for n in ast.walk(f.node))
         cells = {}
         for P in ctx.model.cls('PatternType').enum_members:
             for S in ctx.model.cls('ScopeType').enum_members:
                 assume = {Attr(Attr(prop, 'pattern'), 'pattern_type'): EnumMember('PatternType', P), Attr(Attr(prop, 'scope'), 'scope_type'): EnumMember('ScopeType', S)}
                 ev = Evaluator(ctx.model, inline=pol, assume=assume)
-                outs = ev.run(fi, {'property': prop})
+                outs = _through_generators(ev, ev.run(fi, {'property': prop}))
                 cells[(P, S)] = {'outs': outs, 'where': fi.where}
         return cells
     return ctx.memo('canonical_cells', build)
